@@ -217,6 +217,8 @@ func recoveryAdmissionTrial(run *vk.Run, transport, cause string, hold bool) {
 		}
 		return true
 	})
+	// bounded progress: the session of an aborted long-polling peer goes with the heartbeat (1 s + 1 s)
+	vk.WaitUntil(15*time.Second, func() bool { return sio.VerifEIOSessionCount(srv.IO) == 0 })
 	time.Sleep(150 * time.Millisecond)
 	mu.Lock()
 	var snap []rec
